@@ -38,3 +38,25 @@ func VH_C11_AppxCopySizes() {
 		vhReach("rejected") // vh:require rejected
 	}
 }
+
+// H11.appx-ctypes: every member name of an uploaded APPX / VSIX goes through
+// the content-type table ([Content_Types].xml): Add when an APPX is signed,
+// Find when a VSIX signature is written. For every name of 1..4 characters
+// over letters, dot and slash (names without an extension, with a leading or
+// trailing dot, in directories with dots): neither call panics, and a name
+// that was added is found again with a content type.
+func VH_C11_AppxContentTypes() {
+	const alphabet = "ab./"
+	raw := vhBytes("member-name", vhConcretize(vhInt("name-len", 1, 4), 5))
+	name := make([]byte, len(raw))
+	for i, c := range raw {
+		name[i] = alphabet[int(c)%len(alphabet)]
+	}
+	c := NewContentTypes()
+	c.ByExt["b"] = "application/x-b"
+	before := c.Find(string(name))
+	_ = before
+	c.Add(string(name))
+	vhAssert(c.Find(string(name)) != "", "an-added-part-has-a-content-type")
+	vhReach("typed") // vh:require typed
+}
